@@ -253,7 +253,7 @@ func clauseOf(o opT, got string) string {
 		return "no-runtime-fault"
 	}
 	switch o.Kind {
-	case "Define", "AddType", "AddTypes":
+	case "Define", "AddType", "AddTypes", "Declare":
 		return "write-once"
 	case "Discover":
 		return "discover-exact"
